@@ -123,6 +123,9 @@ acct_free(void *p, size_t sz)
 	}
 	atomic_fetch_sub(&g_live, 1);
 	atomic_fetch_sub(&g_livebytes, (long) b->sz);
+	// poison: data read (or transmitted) after its release shows as wrong bytes even
+	// where no sanitizer is watching
+	memset(p, 0xdd, b->sz);
 	free(b);
 	free(p);
 }
@@ -1057,6 +1060,217 @@ done:
 	}
 }
 
+// ---- messages larger than the WebSocket fragment size (64 KiB): several frames per message.
+// The receiver checks the payload byte for byte: a message is delivered intact or not at all.
+static uint8_t
+big_byte(uint32_t tag, size_t i)
+{
+	return (uint8_t) ((i * 2654435761u + tag * 97u + (i >> 11)) >> 3);
+}
+static int
+big_send(nng_socket s, uint32_t tag, size_t sz)
+{
+	nng_msg *m;
+	int      rv;
+	uint8_t *b;
+	if ((rv = nng_msg_alloc(&m, sz)) != 0) {
+		return rv;
+	}
+	b = nng_msg_body(m);
+	for (size_t i = 4; i < sz; i++) {
+		b[i] = big_byte(tag, i);
+	}
+	b[0] = (uint8_t) (tag >> 24);
+	b[1] = (uint8_t) (tag >> 16);
+	b[2] = (uint8_t) (tag >> 8);
+	b[3] = (uint8_t) tag;
+	if ((rv = nng_sendmsg(s, m, 0)) != 0) {
+		nng_msg_free(m);
+	}
+	return rv;
+}
+// receives until the message with this tag arrives; messages of earlier, abandoned attempts
+// are skipped if they are intact; any message whose content is not what its sender wrote
+// is -1001 (never acceptable)
+static int
+big_recv(nng_socket s, uint32_t tag, size_t sz)
+{
+	for (int n = 0; n < 8; n++) {
+		nng_msg *m;
+		int      rv;
+		if ((rv = nng_recvmsg(s, &m, 0)) != 0) {
+			return rv;
+		}
+		uint8_t *b   = nng_msg_body(m);
+		size_t   len = nng_msg_len(m);
+		uint32_t got = len >= 4 ? ((uint32_t) b[0] << 24) | ((uint32_t) b[1] << 16) | ((uint32_t) b[2] << 8) | b[3] : 0;
+		int      bad = (len != sz) || got == 0 || got > tag;
+		for (size_t i = 4; i < len && !bad; i++) {
+			if (b[i] != big_byte(got, i)) {
+				if (g_debug) {
+					printf("    corrupt byte %zu of %zu: %02x, sent %02x\n", i, len, b[i], big_byte(got, i));
+				}
+				bad = 1;
+			}
+		}
+		nng_msg_free(m);
+		if (bad) {
+			return -1001;
+		}
+		if (got == tag) {
+			return 0;
+		}
+	}
+	return NNG_ETIMEDOUT;
+}
+static uint32_t big_tag;
+static int
+big_xchg(nng_socket from, nng_socket to, size_t sz)
+{
+	int      rv;
+	uint32_t tag = ++big_tag;
+	if ((rv = big_send(from, tag, sz)) != 0) {
+		return rv;
+	}
+	return big_recv(to, tag, sz);
+}
+static int
+big_rr(nng_socket req, nng_socket rep, size_t sz)
+{
+	int      rv;
+	uint32_t tag = ++big_tag;
+	if ((rv = big_send(req, tag, sz)) != 0 || (rv = big_recv(rep, tag, sz)) != 0) {
+		return rv;
+	}
+	tag = ++big_tag;
+	if ((rv = big_send(rep, tag, sz + 1)) != 0) {
+		return rv;
+	}
+	return big_recv(req, tag, sz + 1);
+}
+// arg = "<pair0|reqrep>:<size>:<tran>"
+static void
+prog_big(const char *arg)
+{
+	nng_socket   a = NNG_SOCKET_INITIALIZER, b = NNG_SOCKET_INITIALIZER;
+	nng_listener l;
+	nng_dialer   d;
+	bool         oa = false, ob = false;
+	bool         rr = strncmp(arg, "reqrep", 6) == 0;
+	size_t       sz = (size_t) atol(strchr(arg, ':') + 1);
+	const char  *tran = strrchr(arg, ':') + 1;
+	big_tag = 0;
+	if (!(oa = API(rr ? nng_rep0_open(&a) : nng_pair0_open(&a))) || !(ob = API(rr ? nng_req0_open(&b) : nng_pair0_open(&b)))) {
+		goto done;
+	}
+	if (!set_timeouts(a, 400) || !set_timeouts(b, 400)) {
+		goto done;
+	}
+	if (rr && !API(nng_socket_set_ms(b, NNG_OPT_REQ_RESENDTIME, NNG_DURATION_INFINITE))) {
+		goto done;
+	}
+	if (!API(do_listen(a, tran, &l)) || !TRY(K_CONN, 8, nng_dial(b, g_url, &d, 0))) {
+		goto done;
+	}
+	if (rr) {
+		if (!TRY(K_XCHG, 10, big_rr(b, a, sz))) {
+			goto done;
+		}
+	} else if (!TRY(K_XCHG, 10, big_xchg(b, a, sz)) || !TRY(K_XCHG, 10, big_xchg(a, b, sz + 3))) {
+		goto done;
+	}
+done:
+	if (ob) {
+		API(nng_socket_close(b));
+	}
+	if (oa) {
+		API(nng_socket_close(a));
+	}
+}
+
+// ---- HTTP request URIs longer than the connection's inline buffer (200 bytes): set twice
+static int
+httpuri_round(void)
+{
+	nng_url         *url = NULL;
+	nng_aio         *aio = NULL;
+	nng_http_server *srv = NULL;
+	nng_http_client *cli = NULL;
+	nng_http        *conn = NULL;
+	int              rv, port, first = 0;
+	bool             started = false;
+	char             u1[400], u2[600];
+
+	memset(u1, 'a', sizeof(u1));
+	memset(u2, 'b', sizeof(u2));
+	u1[0] = u2[0] = '/';
+	u1[sizeof(u1) - 1] = u2[sizeof(u2) - 1] = 0;
+	if ((rv = nng_url_parse(&url, "http://127.0.0.1:0/")) != 0 || (rv = nng_aio_alloc(&aio, NULL, NULL)) != 0 ||
+	    (rv = nng_http_server_hold(&srv, url)) != 0 || (rv = nng_http_server_start(srv)) != 0) {
+		goto out;
+	}
+	started = true;
+	nng_aio_set_timeout(aio, 400);
+	if ((rv = nng_http_server_get_port(srv, &port)) != 0) {
+		goto out;
+	}
+	nng_url_resolve_port(url, (uint32_t) port);
+	if ((rv = nng_http_client_alloc(&cli, url)) != 0) {
+		goto out;
+	}
+	nng_http_client_connect(cli, aio);
+	nng_aio_wait(aio);
+	if ((rv = nng_aio_result(aio)) != 0) {
+		goto out;
+	}
+	conn = nng_aio_get_output(aio, 0);
+	// every call: success, or NNG_ENOMEM leaving a URI that can still be read; carried on
+	// to the end so that a dangling pointer left by a failed call is used afterwards
+	for (int i = 0; i < 5; i++) {
+		const char *want = (i % 2) ? u2 : u1;
+		int         r    = i == 4 ? nng_http_set_uri(conn, "/short", "q=1") : nng_http_set_uri(conn, want, NULL);
+		const char *got  = nng_http_get_uri(conn);
+		size_t      n    = strlen(got); // reads the whole string
+		if (r == 0 && i < 4 && (n != strlen(want) || strcmp(got, want) != 0)) {
+			r = -1000;
+		}
+		if (r != 0 && r != NNG_ENOMEM) {
+			rv = r;
+			goto out;
+		}
+		if (r != 0 && first == 0) {
+			first = r;
+		}
+	}
+	rv = first;
+out:
+	if (conn != NULL) {
+		nng_http_close(conn);
+	}
+	if (cli != NULL) {
+		nng_http_client_free(cli);
+	}
+	if (started) {
+		nng_http_server_stop(srv);
+	}
+	if (srv != NULL) {
+		nng_http_server_release(srv);
+	}
+	if (aio != NULL) {
+		nng_aio_free(aio);
+	}
+	if (url != NULL) {
+		nng_url_free(url);
+	}
+	return rv;
+}
+static void
+prog_httpuri(const char *unused)
+{
+	(void) unused;
+	TRY(K_CONN, 4, httpuri_round());
+}
+
 // only nng_init / nng_fini (the allocations of library start-up)
 static void
 prog_init(const char *unused)
@@ -1101,6 +1315,13 @@ build_table(void)
 	add("idmap", prog_idmap, "");
 	add("opts", prog_opts, "");
 	add("http", prog_http, "");
+	add("httpuri", prog_httpuri, "");
+	add("bigpair70k:ws", prog_big, "pair0:70000:ws");
+	add("bigpair200k:ws", prog_big, "pair0:200000:ws");
+	add("bigreqrep70k:ws", prog_big, "reqrep:70000:ws");
+	add("bigreqrep200k:ws", prog_big, "reqrep:200000:ws");
+	add("bigpair200k:tcp", prog_big, "pair0:200000:tcp");
+	add("bigpair200k:inproc", prog_big, "pair0:200000:inproc");
 	for (int t = 0; trans[t] != NULL; t++) {
 		for (int p = 0; patterns[p].name != NULL; p++) {
 			char nm[40];
